@@ -15,6 +15,8 @@ use crate::names::shrink_identifier;
 use crate::shrinking::{Shrinking, ShrinkingState};
 use crate::types::shrink_ty;
 
+use printer::Print;
+
 use std::collections::BTreeSet;
 use std::rc::Rc;
 
@@ -180,10 +182,21 @@ fn lift(statement: FsStatement, state: &mut ShrinkingState) -> Rc<axcut::syntax:
         });
     }
 
-    let label = fresh_identifier(
-        state.max_id,
-        &("lift_".to_string() + state.current_label + "_"),
-    );
+    // the label is printed as `name_id`, which must not coincide with the printed name of any other
+    // top-level function (e.g., a user function called `lift_f__7`)
+    let label_base = "lift_".to_string() + state.current_label + "_";
+    let label = loop {
+        let candidate = fresh_identifier(state.max_id, &label_base);
+        let printed = candidate.print_to_string(None);
+        if !state
+            .used_labels
+            .iter()
+            .any(|used| used.print_to_string(None) == printed)
+        {
+            break candidate;
+        }
+    };
+    state.used_labels.insert(label.clone());
     let context = shrink_context(context.into(), state.codata);
     // we substitute the fresh variables for the free ones in the body
     let body = statement.subst_sim(&subst).shrink(state);
